@@ -55,6 +55,16 @@ def cmd_check(argv: list) -> int:
                 print("ANALYSIS-ERROR: sensitivity audit: behaviour-preserving twin reported: %s" % x)
             finish(chk, t0, seed, audit)
             return 2
+        from .corpus import run_corpus
+        corpus = run_corpus([prop], quiet=True)
+        audit["corpus"] = corpus
+        if corpus["alarms"] or corpus["missed"]:
+            for x in corpus["alarms"]:
+                print("ANALYSIS-ERROR: corpus audit: behaviour-preserving patch reported: %s" % x)
+            for x in corpus["missed"]:
+                print("ANALYSIS-ERROR: corpus audit: seeded change not reported: %s" % x)
+            finish(chk, t0, seed, audit)
+            return 2
     return finish(chk, t0, seed, audit)
 
 
